@@ -45,22 +45,22 @@ def num_check(pid, cases_quick, cases_thorough, variants=("base",), min_nt=(200,
 
 
 CHECKS = {}
-CHECKS["C01"] = num_check("C01", 16000, 400000)
-CHECKS["C02"] = num_check("C02", 6400, 160000)
-CHECKS["C03"] = num_check("C03", 6400, 128000)
-CHECKS["C04"] = num_check("C04", 32000, 800000)
-CHECKS["C05"] = num_check("C05", 19200, 400000)
-CHECKS["C06"] = num_check("C06", 96000, 2000000)
-CHECKS["C07"] = num_check("C07", 12800, 256000)
-CHECKS["C08"] = num_check("C08", 25600, 640000)
-CHECKS["C09"] = num_check("C09", 1600, 32000, variants=("base", "opt"))
+CHECKS["C01"] = num_check("C01", 10000, 120000)
+CHECKS["C02"] = num_check("C02", 4000, 48000)
+CHECKS["C03"] = num_check("C03", 3200, 38400)
+CHECKS["C04"] = num_check("C04", 20000, 240000)
+CHECKS["C05"] = num_check("C05", 8000, 96000)
+CHECKS["C06"] = num_check("C06", 40000, 480000)
+CHECKS["C07"] = num_check("C07", 6400, 76800)
+CHECKS["C08"] = num_check("C08", 16000, 192000)
+CHECKS["C09"] = num_check("C09", 1200, 14400, variants=("base", "opt"))
 
 C20_RULE = ("for each of 20 (richer, simpler) solution pairs and both scalar types rapidcheck generates the simpler solution's full parameter "
             "assignment and point plus the richer solution's remaining parameters; shared parameters are copied, the specialising ones are set to 0 "
             "(z-amplitudes and the w field; mu = k = 0; temporal amplitudes; A_t..D_t; k_1,k_2,cp_1,cp_2); both solutions live on two handles of one "
             "process and are evaluated alternately; corresponding sources must agree within 32*eps*(mag_a+mag_b), the AD oracle supplying the scale only. "
             "Non-trivial as for the residual checks (on the simpler case); distinct = distinct (pair, both assignments, points) hashes.")
-CHECKS["C20"] = num_check("C20", 4000, 100000, binary="c20", with_prop=False, rule=C20_RULE,
+CHECKS["C20"] = num_check("C20", 2000, 24000, binary="c20", with_prop=False, rule=C20_RULE,
                           assumptions=["the reference operator is used only as the scale of the comparison, never in the verdict",
                                        "shared parameters are the ones with identical names in both solutions"])
 
@@ -90,16 +90,16 @@ def hist_check(pid, cases_q, cases_t, rule, variant="exc", maxsize_q=100, maxsiz
 HIST_GEN = ("rapidcheck generates a vector of raw operation records (0..maxsize of them); each record is decoded against the CURRENT model state "
             "(handle slots, parameter/vector/evaluator indices modulo what exists, values from a magnitude-diverse decoder incl. +-0, denormals, 1e+-300, the marker) "
             "so every generated and every shrunk history is valid; the library is driven step by step next to a reference model and compared after every step; ")
-CHECKS["C10"] = hist_check("C10", 24000, 500000, HIST_GEN + "C10: every provided evaluator call is repeated and re-evaluated on a fresh handle holding the same parameters (bit equality), and the "
+CHECKS["C10"] = hist_check("C10", 16000, 192000, HIST_GEN + "C10: every provided evaluator call is repeated and re-evaluated on a fresh handle holding the same parameters (bit equality), and the "
                            "full parameter/vector snapshot of the evaluated handle must be unchanged; all handles of both precisions are audited at the end. Non-trivial: >= 2 provided evaluations "
                            "and a select of another handle or >= 2 inits in between. distinct = distinct decoded histories; evaluations = executed steps.")
-CHECKS["C11"] = hist_check("C11", 96000, 2000000, HIST_GEN + "C11: set/get/init_param/purge/sanity/display/set_vec/get_vec against a per-handle map model, valid and invalid names, evaluations compared with a "
+CHECKS["C11"] = hist_check("C11", 64000, 768000, HIST_GEN + "C11: set/get/init_param/purge/sanity/display/set_vec/get_vec against a per-handle map model, valid and invalid names, evaluations compared with a "
                            "fresh handle that received only the final values. Non-trivial: an invalid-name operation, a purge or init_param, and a valid set in one history.")
-CHECKS["C12"] = hist_check("C12", 32000, 600000, HIST_GEN + "C12: init/select/re-init over 7 verbatim handle strings (incl. empty, blanks, case twins) in both precisions; after EVERY step every handle of both "
+CHECKS["C12"] = hist_check("C12", 12000, 144000, HIST_GEN + "C12: init/select/re-init over 7 verbatim handle strings (incl. empty, blanks, case twins) in both precisions; after EVERY step every handle of both "
                            "registries is selected in turn and compared with the model (isolation), masa_list_mms is parsed and compared. Non-trivial: >= 3 inits, a re-init of a live handle and two handles of one type.")
-CHECKS["C15"] = hist_check("C15", 64000, 1200000, HIST_GEN + "C15: evaluator overloads outside the selected solution's capability set must return exactly -1.33, print (S)MASA ERROR, not throw, and leave every "
+CHECKS["C15"] = hist_check("C15", 32000, 384000, HIST_GEN + "C15: evaluator overloads outside the selected solution's capability set must return exactly -1.33, print (S)MASA ERROR, not throw, and leave every "
                            "parameter unchanged. Non-trivial: >= 3 such calls in one history.")
-CHECKS["C17"] = hist_check("C17", 96000, 2000000, HIST_GEN + "C17: every extern \"C\" entry point (header-declared and cmasa.cpp-only) is called and followed by the <double> template call obtained from the NAMING "
+CHECKS["C17"] = hist_check("C17", 48000, 576000, HIST_GEN + "C17: every extern \"C\" entry point (header-declared and cmasa.cpp-only) is called and followed by the <double> template call obtained from the NAMING "
                            "convention at the same state: evaluators bitwise, statuses equal (non-zero cases generated: purge, empty vector, unknown names, the failing fixture), arrays through exact-size heap "
                            "buffers, masa_get_name into a sentinel-filled buffer. Non-trivial: >= 3 C calls interleaved with >= 1 C++ state change.")
 
@@ -122,13 +122,13 @@ def names_check(pid, cases_q, cases_t, rule, assumptions, exhaustive=False, min_
                 min_nontrivial={"quick": min_nt[0], "thorough": min_nt[1]}, timeout={"quick": 600, "thorough": 2400})
 
 
-CHECKS["C13"] = names_check("C13", 192000, 4000000,
+CHECKS["C13"] = names_check("C13", 96000, 1200000,
     "rapidcheck draws a catalogue name (from masa_printid) and a transformation: (50%) per-character case flips plus runs of 0..3 characters from {'-',' '} at every gap incl. before the first and after "
     "the last character; (50%) negatives: one character deleted/replaced/transposed, '_' removed, another separator (tab . _ newline + /) inserted, prefixes/extensions, random printable strings, raw bytes, empty. "
     "Oracle: reference normaliser lower(s) without '-' and ' '; norm(s) in catalogue <=> masa_init returns, masa_get_name == norm(s), the handle is listed verbatim; otherwise int 1 is thrown after 'MASA FATAL ERROR' and "
     "masa_list_mms is unchanged (a pre-existing handle is registered first). Both scalar types, 7 handle strings. Non-trivial: decorated string != name containing a run of >= 2 adjacent separators or a leading/trailing one, or a near-miss negative; distinct by (string, handle, type).",
     ["exception build (-DMASA_EXCEPTIONS) observes rejections in-process; the exit() path of the same code is covered by C16's forked runs", "ASCII lower-casing (C locale)"])
-CHECKS["C14"] = names_check("C14", 320000, 6000000,
+CHECKS["C14"] = names_check("C14", 320000, 3200000,
     "exhaustive part: every name printed by masa_printid<double> / <long double> (equal lists, unique, own normal form, in spec/capabilities.json) is initialised in both scalar types; get_name, sanity_check == 0, "
     "init_param == 0 and get_dimension against the spec for every non-fixture entry. Generated part: rapidcheck draws (entry, scalar type, interior point in (0.05,0.95)^4, direction index) and calls EVERY evaluator of the entry's "
     "capability set with default parameters: finite and not -1.33. evaluations = enumerated entries + evaluator calls; distinct_nontrivial = distinct (entry, type, point).",
@@ -141,7 +141,7 @@ def c16_check():
             "and the selection are compared with the unchanged model and the history goes on. exit() build: the failing call runs in a forked child; the parent requires exit status 1 and the message on the child's stdout. "
             "Non-trivial: a misuse step after a non-empty prefix.")
     def workers(tier, seed, work):
-        n = 48000 if tier == "quick" else 1000000
+        n = 32000 if tier == "quick" else 400000
         per = max(1, n // NPROC)
         jobs = []
         for i in range(NPROC):
